@@ -796,8 +796,9 @@ Definition escape_dots (s : str) : str := flat_map (fun c => if c =? 46 then [92
 Inductive schemaspec :=
 | SchNone
 | SchStr (text : str)
-| SchCall (tab : list (str * option json)).   (* a callable, tabulated on the path relative to the
-                                                 origin ('.' = the origin itself; archive names as given) *)
+| SchCall (tab : list (str * option json)).   (* a callable, tabulated on the normalised path relative
+                                                 to the origin ('.' = the origin itself) / on the
+                                                 normalised archive name *)
 
 Definition truthy (v : option json) : bool :=
   match v with Some (JObj (_ :: _)) => true | Some (JObj []) => false | Some _ => true | None => false end.
@@ -939,7 +940,7 @@ Definition arch_schema_fn (o : oracle) (sch : schemaspec) (read : str -> res (op
   match sch with
   | SchNone => read name
   | SchCall tab =>
-      do sp <- match alookup name tab with Some r => ROk r | None => ROod end;
+      do sp <- match alookup (normpath name) tab with Some r => ROk r | None => ROod end;
       do spd <- read name;
       consistency sp spd
   | SchStr text =>
@@ -1042,6 +1043,9 @@ Definition tar_extract (ms : list (str * bool * str)) : res fs :=
      match resolve_comps [] (split 47 (lstrip_slash name)) with
      | None => RExn EOther
      | Some p =>
+         (* a '..' that does not leave tmpdir: tarfile's makedirs(exist_ok=False) on a lexical path;
+            outside the domain of the model *)
+         if existsb (str_eqb dotdot) (split 47 name) then ROod else
          if (isdir : bool) then fs_mkdir_p p f
          else rbind (fs_mkdir_p (removelast p) f) (fun g : fs => fs_write p c g)
      end) ms (ROk ([] : fs)).
